@@ -27,15 +27,23 @@ PyMODINIT_FUNC PyInit_specpart(void) {
 static PyObject * specpart(PyObject *self, PyObject *args)
 {
   PyArrayObject *specin, *ipartout;  // The python objects to be extracted from the args
+  PyObject *specobj;
   float * spec;
   int * ipart;
   int ihmax;
   int nk, nth, dims[2], i, j;
 
-  if (!PyArg_ParseTuple(args, "O!i", &PyArray_Type, &specin, &ihmax))
+  if (!PyArg_ParseTuple(args, "O!i", &PyArray_Type, &specobj, &ihmax))
     return NULL;
+  /* The C routine reads a C-contiguous float32 buffer whatever the layout of the input */
+  specin = (PyArrayObject *) PyArray_FROM_OTF(specobj, NPY_FLOAT, NPY_ARRAY_IN_ARRAY);
   if (NULL == specin)
     return NULL;
+  if (PyArray_NDIM(specin) != 2) {
+    Py_DECREF(specin);
+    PyErr_SetString(PyExc_ValueError, "spectrum must be a 2D array");
+    return NULL;
+  }
 
   nk = dims[0] = PyArray_DIMS(specin)[0];
   nth = dims[1] = PyArray_DIMS(specin)[1];
@@ -56,6 +64,7 @@ static PyObject * specpart(PyObject *self, PyObject *args)
   /* Free memory, close file and return */
   // Don't think that is necessary
   //PyArray_free(spec);
+  Py_DECREF(specin);
   
   return PyArray_Return(ipartout);
 }
